@@ -3,7 +3,7 @@ import json, os
 from fractions import Fraction
 from . import core
 
-SECTIONS = ["RateLimiter"]
+SECTIONS = ["RateLimiter", "Archiver"]
 LEVEL = "proof"
 RULE = ("event sequences (<= 60 events: acquire attempt / failure(status) / success) with boundary-rich dyadic timings against the real "
         "tokenBucket under an injected clock, capacities 1..10, configured rates 1/10..10 (also below 0.5/s), long failure streaks (up to "
@@ -210,8 +210,55 @@ def corpus(ctx):
     return out
 
 
+def crawl_politeness(ctx, n):
+    """whole crawls with the limiter on: a host (host:port, as every origin here) answers 429 / 503 to some assets; judged on the origin's
+    own log: after a 429 / 403 / 408 / 425 no request reaches that host for the penalty (5 s for the first failure), and the host never
+    sees more than capacity + T x rate requests in any window - whatever bucket key the crawler uses internally"""
+    from . import e2e
+    r = ctx.rng
+    scns = []
+    for k in range(n):
+        cap, rate = r.choice([(2, 2), (3, 1)])
+        assets = ["/h%d/a%d.png" % (k, i) for i in range(5)]
+        site = {a: {"ctype": "image/png", "body": {"kind": "png", "size": 50, "seed": i}} for i, a in enumerate(assets)}
+        site[assets[1]] = {"status": r.choice([429, 408, 425]), "ctype": "text/plain", "body": {"kind": "text", "size": 10, "seed": 1}}
+        site["/h%d/" % k] = {"ctype": "text/html", "body": {"kind": "html", "assets": assets, "outlinks": []}}
+        scns.append({"useHQ": True, "seeds": ["/h%d/" % k], "site": site, "stop": {"when": "drain", "timeoutMs": 60000},
+                     "cfg": {"workers": 1, "maxConcurrentAssets": 1, "maxRetry": 0, "httpTimeout": 5, "hqBatchSize": 1, "disableRateLimit": False,
+                             "rateLimitCapacity": cap, "rateLimitRefillRate": rate}})
+    results = e2e.run_many(scns, timeout=120, workers=6)
+    for scn, (rep, err) in zip(scns, results):
+        rp = {"domain": "e2e", "scenario": scn}
+        ctx.count("politeness-crawls")
+        ctx.case("crawl" + json.dumps(scn["site"], sort_keys=True)[:300], True)
+        if not rep.get("drained"):
+            ctx.violation("a crawl with the rate limiter on did not finish: %s" % err[-300:], rp); continue
+        reqs = sorted(rep.get("requests") or [], key=lambda q: q["t"])
+        cap, rate = scn["cfg"]["rateLimitCapacity"], scn["cfg"]["rateLimitRefillRate"]
+        for i, q in enumerate(reqs):
+            if q.get("status") in PEN:
+                answered = q.get("done") or q["t"]
+                later = [x for x in reqs[i + 1:]]
+                if later and (later[0]["t"] - answered) / 1e9 < 5 - 0.25:
+                    ctx.violation("the host answered %d to %s; the next request to that host (%s) arrived %.2f s later, the penalty is 5 s" % (
+                        q["status"], q["key"], later[0]["key"], (later[0]["t"] - answered) / 1e9), dict(rp, url=q["key"]))
+                    break
+        else:
+            ts = [q["t"] / 1e9 for q in reqs]
+            for i in range(len(ts)):
+                for j in range(i + 1, len(ts)):
+                    T = ts[j] - ts[i]
+                    if j - i + 1 > cap + T * rate + 1 + 1e-6:     # + 1: the window is closed on both sides
+                        ctx.violation("%d requests reached the host within %.3f s (capacity %d, rate %s/s)" % (j - i + 1, T, cap, rate), rp)
+                        break
+                else:
+                    continue
+                break
+
+
 def run(ctx):
     n = 20000 if ctx.thorough() else 600
+    crawl_politeness(ctx, 12 if ctx.thorough() else 2)
     cp = corpus(ctx)
     seqs = cp + [gen_seq(ctx.rng) for _ in range(n)] + [gen_seq(ctx.rng, streak=True) for _ in range(n // 10)]
     run_seqs(ctx, seqs)
